@@ -315,6 +315,28 @@ fn gen(args: &Args, emit: &mut dyn FnMut(Value)) {
             let cfg = gen_cfg(&mut rng, Some(2));
             emit(json!({"u": hex(u.as_bytes()), "u2": hex(format!("{u}?b=1&a=2").as_bytes()), "kind": "long", "cfg": cfg, "target": hex(b"/t"), "host": null, "headers": []}));
         }
+        // exhaustive small scope: every URL of length <= 4 over a 12-symbol alphabet (delimiters, both cases of a
+        // letter, '%' and hex digits, '+', space, the back-quote PathAndQuery rejects), u2 = u, under the 8 combinations
+        // of the three flags the normalisation reads, marketing set {"a"}
+        let alpha = ["/", "?", "&", "=", "a", "A", "%", "4", "1", "+", " ", "`"];
+        let mut level: Vec<String> = vec![String::new()];
+        let mut all: Vec<String> = Vec::new();
+        for _ in 0..4 {
+            let mut next = Vec::new();
+            for w in &level {
+                for a in alpha {
+                    next.push(format!("{w}{a}"));
+                }
+            }
+            all.extend(next.iter().cloned());
+            level = next;
+        }
+        for u in &all {
+            for f in 0..8usize {
+                let cfg = json!({"ic": f & 1 != 0, "im": f & 2 != 0, "pm": f & 4 != 0, "ihc": false, "ihd": false, "amh": true, "mk": [hex(b"a")]});
+                emit(json!({"u": hex(u.as_bytes()), "u2": hex(u.as_bytes()), "kind": "exh", "cfg": cfg, "target": hex(b"/t"), "host": null, "headers": [], "exh": true}));
+            }
+        }
         // every flag combination on every generated URL shape: n/64 URLs x 64
         let per = (args.n / 64).max(1);
         for _ in 0..per {
